@@ -559,7 +559,9 @@ def main(pid, tier, replay=None):
     with open(trace, "w") as f:
         f.writelines(lines)
     if lines:
-        e = json.loads(lines[0])
+        # (values are compared only for inputs without errors: corrupt such a line)
+        cand = [x for x in lines if '"errors":[]' in x and "LEXONLY" not in x] or lines
+        e = json.loads(cand[0])
         e["ct"]["value"] += "x"
         v = p_src.validate(res, "TraceCTRT", 9000, [json.dumps(e) + "\n"], {})
         st = dict(rejected=len(v["devs"]) > 0, corruption="CT value altered")
